@@ -33,6 +33,7 @@ type xState struct {
 	moved map[string]bool // pointer registers (by base param) that were advanced on this path
 	trail string
 	stored []xStore // extents stored so far on this path (for the exact-overlap rule)
+	scr    map[string][]uint8 // scratch parameter -> per-byte status (scrZ..scrS), see scratchAccess
 }
 
 type xStore struct {
@@ -44,6 +45,12 @@ type xStore struct {
 
 func (s *xState) clone() *xState {
 	t := &xState{regs: map[string]*Lin{}, facts: append([]Fact(nil), s.facts...), cmpA: s.cmpA, cmpB: s.cmpB, moved: map[string]bool{}, trail: s.trail, stored: append([]xStore(nil), s.stored...)}
+	if s.scr != nil {
+		t.scr = map[string][]uint8{}
+		for k, v := range s.scr {
+			t.scr[k] = append([]uint8(nil), v...)
+		}
+	}
 	for k, v := range s.regs {
 		t.regs[k] = v
 	}
@@ -119,10 +126,13 @@ type xContract struct {
 	consumeSet map[string][]*Lin // streamed parameter -> allowed total advances at the end of a phase
 	mayBeNil map[string]bool
 	overlap  map[string][]string // source parameter -> destination parameters that may alias it exactly (in-place operation)
+	scratch  map[string]int      // scratch parameter -> size: zero on entry (a fresh local of the Go caller), staged and re-used
 }
 
 type xResult struct {
 	overlaps  []Obligation
+	scratchObl []Obligation
+	scratchLoads int
 	overlapChecked int
 	r         *Routine
 	accesses  map[int]*xAccess // by instruction index (worst status over states)
@@ -773,6 +783,11 @@ func (a *xAnalysis) checkAccesses(s *xState, idx int) {
 			}
 		}
 		rec.off = off
+		if a.recording && a.contract != nil && a.contract.scratch != nil && !strings.HasPrefix(base, "&sym:") {
+			if n, ok := a.contract.scratch[base[1:]]; ok {
+				a.scratchAccess(s, in, base[1:], n, off, int(width), m.Load, m.Store)
+			}
+		}
 		if a.recording && a.contract != nil && a.contract.overlap != nil && !strings.HasPrefix(base, "&sym:") {
 			pname := base[1:]
 			if m.Load {
@@ -881,6 +896,20 @@ func (a *xAnalysis) addState(m map[int][]*xState, b int, s *xState) {
 		o.stored = append(o.stored, s.stored...)
 		if len(o.stored) > 96 {
 			o.stored = o.stored[len(o.stored)-96:]
+		}
+		for k, v := range s.scr {
+			if o.scr == nil {
+				o.scr = map[string][]uint8{}
+			}
+			if ov, ok := o.scr[k]; ok {
+				for i := range ov {
+					if i < len(v) && v[i] > ov[i] {
+						ov[i] = v[i]
+					}
+				}
+			} else {
+				o.scr[k] = append([]uint8(nil), v...)
+			}
 		}
 		return
 	}
@@ -1421,6 +1450,107 @@ func (s *xState) roundQuotients() {
 			if !has(ge1) && lpProveNonNeg(q.Scale(d).Add(linConst(-1)), s.facts) {
 				s.facts = append(s.facts, Fact{E: ge1})
 			}
+		}
+	}
+}
+
+
+// Scratch discipline (SCRATCH-REINIT). The fused GCM routines stage partial blocks in a small scratch block that the Go
+// caller hands in zeroed. Per byte of the scratch the status is
+//   Z  known zero (entry, or an explicit store of the constant 0)
+//   F  fresh: written (or left zero) since the last full-vector load consumed the block
+//   X  consumed: data of a previous staging that a vector load has already used
+//   S  possibly stale: a variable-length copy went over consumed bytes without the block being cleared first
+// A variable-length store (offset not constant on the path) turns the 16-byte block it starts in from Z/F into F and from
+// X into S; a vector load (>= 16 bytes) must find no X or S byte and turns F into X. Joins take the maximum.
+const (
+	scrZ = iota
+	scrF
+	scrX
+	scrS
+)
+
+func (a *xAnalysis) scratchAccess(s *xState, in *Instr, param string, size int, off *Lin, width int, load, store bool) {
+	if s.scr == nil {
+		s.scr = map[string][]uint8{}
+	}
+	st, ok := s.scr[param]
+	if !ok {
+		st = make([]uint8, size)
+		s.scr[param] = st
+	}
+	constOff := off.IsConst()
+	c := int(off.C)
+	if !constOff && load && width >= 16 {
+		// the pointer was advanced by a copy loop and rewound: ask the facts of the path whether the offset is a block start
+		for cand := 0; cand+16 <= size; cand += 16 {
+			d := off.Sub(linConst(int64(cand)))
+			if ProveNonNeg(d, s.facts) && ProveNonNeg(d.Scale(-1), s.facts) {
+				constOff, c = true, cand
+				break
+			}
+		}
+	}
+	if load && width >= 16 {
+		a.res.scratchLoads++
+		if !constOff {
+			a.res.scratchObl = append(a.res.scratchObl, Obligation{Rule: "SCRATCH-REINIT", Key: fmt.Sprintf("%s/%s: %s", a.r.Arch, a.r.Name, in.Raw), Pos: in.Pos, Status: UNDECIDED, Detail: "vector load from the scratch block at a non-constant offset " + off.String()})
+			return
+		}
+		bad := -1
+		for i := c; i < c+width && i < len(st); i++ {
+			if i >= 0 && st[i] >= scrX && bad < 0 {
+				bad = i
+			}
+		}
+		key := fmt.Sprintf("%s/%s: scratch %s consumed by %s", a.r.Arch, a.r.Name, param, in.Raw)
+		if bad >= 0 {
+			dup := false
+			for _, o := range a.res.scratchObl {
+				if o.Key == key && o.Status == VIOLATED {
+					dup = true
+				}
+			}
+			if !dup {
+				a.res.scratchObl = append(a.res.scratchObl, Obligation{Rule: "SCRATCH-REINIT", Key: key, Pos: in.Pos, Status: VIOLATED,
+					Detail: fmt.Sprintf("on a path (%s) byte %d of %s still holds data of an earlier staging when the block is loaded: the partial copy that precedes the load is not preceded by clearing the block", s.trail, bad, param)})
+			}
+		}
+		for i := c; i < c+width && i < len(st); i++ {
+			if i >= 0 && st[i] == scrF {
+				st[i] = scrX
+			}
+		}
+		return
+	}
+	if !store {
+		return
+	}
+	if constOff {
+		zero := len(in.Args) > 0 && in.Args[0].Kind == OImm && in.Args[0].Imm == 0
+		for i := c; i < c+width && i < len(st); i++ {
+			if i < 0 {
+				continue
+			}
+			if zero {
+				st[i] = scrZ
+			} else {
+				st[i] = scrF
+			}
+		}
+		return
+	}
+	// variable-length staging into the block that contains the constant part of the offset
+	b := (c / 16) * 16
+	for i := b; i < b+16 && i < len(st); i++ {
+		if i < 0 {
+			continue
+		}
+		switch st[i] {
+		case scrZ:
+			st[i] = scrF
+		case scrX:
+			st[i] = scrS
 		}
 	}
 }
